@@ -259,7 +259,8 @@ class C02(StreamProp):
                "the 32/64-byte block loops of skip_string/do_skip_number/skip_space are modelled by their scalar meaning (Layer 2 in Thm/C17)"]
     assumptions = ["the fully-decoding entry points are decided by the direct oracle Spec.document(strict) (their Layer-1 model is Thm/C03)",
                    "nesting depth of generated inputs stays below any limit"]
-    SKIP = ["lazy", "lazy_str", "owned", "ign", "embl", "embi"]
+    SKIP = ["lazy", "lazy_str", "owned", "ign", "embl", "embi", "tupl_lazy", "tupl_owned", "tupl_ign"]
+    SSTREAM = ["stream_lazy", "stream_owned", "stream_ign", "iter_lazy"]
     FULL = ["dom", "dom_str", "sj", "emb", "rdr"]
     STREAM = ["stream_bytes", "stream_slice", "stream_faststr"]
     streams = [("c02",
@@ -267,12 +268,13 @@ class C02(StreamProp):
                 + [("oracle", f, "spec.skip", "ar") for f in SKIP]
                 + [("oracle", f, "spec.full", "ar") for f in FULL]
                 + [("oracle", f, "spec.prefix", "ar") for f in STREAM]
+                + [("oracle", f, "spec.sprefix", "ar") for f in SSTREAM]
                 + [("adequacy", "ref", "spec.full", "ar")])]
 
     def classify(self, stream, field, case, got, want, impl, model):
         t = unhex(case.split(" ")[1])
         cls = "other"
-        if field in self.STREAM and re.match(rb"^[ \t\r\n]*-?0[0-9]", t):
+        if field in self.STREAM + self.SSTREAM and re.match(rb"^[ \t\r\n]*-?0[0-9]", t):
             # `Deserializer::deserialize` has no trailing check: `00` is the document `0` followed by
             # another one; the specification's maximal-munch rule for a leading zero is a whole-input
             # convenience and is not demanded of the stream entry point
@@ -286,7 +288,7 @@ class C02(StreamProp):
                 cls = "accepts-malformed"
         else:
             cls = "rejects-wellformed"
-        group = "skip" if field in self.SKIP else ("stream" if field in self.STREAM else "full")
+        group = "skip" if field in self.SKIP else ("stream" if field in self.STREAM + self.SSTREAM else "full")
         return f"C02|{group}:{field}|{cls}"
 
     def nontrivial_case(self, I, M):
@@ -745,7 +747,7 @@ class C05(Prop):
             "strings of every length 0..260 with escapables/multi-byte characters at random positions, bytes, options, sequences, tuples, maps "
             "with string/integer/bool/char/float/invalid keys, structs, all four variant shapes, nesting <= 5); every value goes through "
             "to_vec, to_string, to_writer on Vec / BytesMut writer / BufferedWriter / io::BufWriter (default and 7-byte capacity), the pretty "
-            "variants, and a sink failing after n bytes for 5-7 values of n; non-trivial = the value contains a string needing an escape, a "
+            "variants, a sink failing after n bytes for 5-7 values of n, and the same BufferedWriter used again after a failed write; non-trivial = the value contains a string needing an escape, a "
             "container or a float")
     trusted = ["itoa/ryu texts are carried as bytes: integers are compared with Rust's own Display, floats by value (Spec.f64Bits of the text)",
                "the driver re-parses the implementation's output with Spec.docTree and re-renders it with the proved serializer model"]
@@ -817,6 +819,9 @@ class C05(Prop):
             fl = I.get("failing", "ok")
             if fl.startswith("BAD"):
                 res.oracle_failures.append(dict(key="C05|failing-writer|error-swallowed-or-not-a-prefix", case=full, detail=fl[:200]))
+            ru = I.get("reuse", "ok")
+            if ru.startswith("BAD"):
+                res.oracle_failures.append(dict(key="C05|writer-reused-after-error|output-is-not-the-value", case=full, detail=ru[:200]))
 
 
 # ------------------------------------------------------------------------------------------
@@ -1107,7 +1112,11 @@ class C08(Prop):
             if m_:
                 res.evaluations += 2 ** 32 - 2 ** 24
                 if int(m_.group(1)) > 0:
-                    res.oracle_failures.append(dict(key="C08|f32|does-not-read-back-bit-identically", case=f"c08 f32 {m_.group(2)}", detail=line))
+                    listed = [b for b in m_.group(2).split(",") if b != "-"]
+                    for b in listed:
+                        res.oracle_failures.append(dict(key="C08|f32|does-not-read-back-bit-identically", case=f"c08 f32 {b}", detail=line[:200]))
+                    if int(m_.group(1)) > len(listed):
+                        res.oracle_failures.append(dict(key="C08|f32|does-not-read-back-bit-identically", case="c08 allf32", detail=line[:200]))
 
 
 # ------------------------------------------------------------------------------------------
@@ -1266,7 +1275,9 @@ class C15(Prop):
     trusted = ["canonical dumps go through the public read API (iteration, as_*); objects are dumped one member per key (the first), sorted by key: "
                "len() and iteration of a parsed object with duplicate keys show the duplicates, which is documented behaviour and outside the map model",
                "numbers of the histories are small integers; HashMap iteration order is not part of the model",
-               "not exercised: Array::append / Object::append (two containers), IterMut, resize_with, the sort_keys build"]
+               "not exercised: Array::append / Object::append (two containers), IterMut, resize_with, the sort_keys build",
+               "Entry::key and array::IntoIter::{as_slice, as_mut_slice, as_ref, len, rest} are queried on every container of a second stream of documents; their "
+               "expected results (the key; the items not yet yielded) are spelled out in the harness, not in the Lean model"]
     assumptions = ["a panic is reported as 'the reference rejects the operation'; the value must then still dump as before"]
 
     def explore(self, ctx, res):
@@ -1318,6 +1329,29 @@ class C15(Prop):
                 k = next((k for k in range(min(len(a), len(m))) if a[k] != m[k]), min(len(a), len(m)))
                 res.model_disagreements.append(dict(key="c15:representation-model-differs", case=case,
                                                     detail=f"step {k}: impl {a[k] if k < len(a) else None} model {m[k] if k < len(m) else None}"))
+        # read-only queries of the entry API and of array::IntoIter on every container of generated documents (parsed and promoted),
+        # against the vector / map reference spelled out in the harness (no Lean model involved: results of queries, not of mutations)
+        qp = generate(ctx, "c15q")
+        with open(qp) as f:
+            qcases = f.read().splitlines()
+        qo = qp + ".impl"
+        rc, err = ctx["run_lines"](ctx["vh"], ["c15q", "run"], qp, qo)
+        with open(qo, errors="replace") as f:
+            qouts = f.read().splitlines()
+        if rc != 0 or len(qouts) != len(qcases):
+            res.oracle_failures.append(dict(key="c15q:process-abort", case=qcases[min(len(qouts), len(qcases) - 1)] if qcases else "c15q", detail=err[-300:]))
+        for case, line in zip(qcases, qouts):
+            res.evaluations += 1
+            res.distribution["query-documents"] += 1
+            if line.startswith("q=BAD:"):
+                try:
+                    txt = bytes.fromhex(line[6:]).decode("utf-8", "replace")
+                except ValueError:
+                    txt = line
+                which = "entry-key" if "entry(" in txt else "into_iter-slices"
+                res.oracle_failures.append(dict(key=f"C15|query|{which}-differs-from-reference", case=case, detail=txt[:300]))
+            elif line.startswith("PANIC"):
+                res.oracle_failures.append(dict(key="C15|query|panic", case=case, detail=line[:100]))
 
 
 # ------------------------------------------------------------------------------------------
@@ -1457,6 +1491,18 @@ class C13(Prop):
                         res.oracle_failures.append(dict(key=f"C13|{k}|view-differs-from-dom-of-raw-text", case=case, detail=v[:300]))
                     elif parts[2] != want_back:
                         res.oracle_failures.append(dict(key=f"C13|{k}|struct-not-reproduced", case=case, detail=f"got {parts[2][:200]} want {want_back[:200]}"))
+                elif k == "d.display":
+                    parts = v.split("|")
+                    if len(parts) != 2 or parts[0] != raw or parts[1] != raw:
+                        res.oracle_failures.append(dict(key="C13|d.display|display-is-not-the-serialization", case=case,
+                                                        detail=f"LazyValue {parts[0][:120]} OwnedLazyValue {parts[1][:120] if len(parts) > 1 else ''} raw {raw[:120]}"))
+                elif k == "o.tolazy":
+                    # made by serializing the DOM: number texts are re-written, so only the view is compared, and the two serializations with each other
+                    parts = v.split("|")
+                    if len(parts) != 3 or parts[0] != spec:
+                        res.oracle_failures.append(dict(key=f"C13|{k}|view-differs-from-dom-of-raw-text", case=case, detail=f"{v[:200]} spec {spec[:200]}"))
+                    elif parts[1] != parts[2]:
+                        res.oracle_failures.append(dict(key=f"C13|{k}|not-verbatim", case=case, detail=f"ser {parts[1][:160]} / {parts[2][:160]}"))
                 elif k.startswith("o."):
                     parts = v.split("|")
                     if len(parts) != 3 or parts[0] != spec:
